@@ -1,7 +1,8 @@
 (* kind "tmap": same script as harness/jlsrun_k_tmap.h (see there for the grammar).
    argv[2] = "asan" (default): the model's physical array size is checked (a read of
    x[length] with length = allocated cells is FAULT:ASAN); "plain": unchecked build, the
-   cell after the last entry holds junk.  argv[3] = junk value (signed hex, default 0). *)
+   cell after the last entry holds junk; "fixed": the model of the minimally repaired code
+   (TmapModel.tmap_*_fixed).  argv[3] = junk value (signed hex, default 0). *)
 open Jlsmodel_ext
 open Util
 let txs32 s = let x = !s in
@@ -18,6 +19,7 @@ let fault_str = function
   | OOB_read -> "ASAN" | FP_invalid -> "FPINV" | Int_overflow -> "OVF" | Nonterm -> "TIMEOUT"
 let () = register "tmap" (fun ic ->
   let checked = not (Array.length Sys.argv > 2 && Sys.argv.(2) = "plain") in
+  let fixed = Array.length Sys.argv > 2 && Sys.argv.(2) = "fixed" in
   let junk = if Array.length Sys.argv > 3 then z_of_hex Sys.argv.(3) else Z0 in
   iter_lines ic (fun line ->
     match split_ws line with
@@ -66,7 +68,9 @@ let () = register "tmap" (fun ic ->
         | [] -> ()
         | q :: tl ->
           let v = z_of_hex (String.sub q 1 (String.length q - 1)) in
-          let r = if q.[0] = 's' then tmap_sample_id_to_timestamp junk tm v
+          let r = if fixed then (if q.[0] = 's' then tmap_sample_id_to_timestamp_fixed tm v
+                                 else tmap_timestamp_to_sample_id_fixed tm v)
+                  else if q.[0] = 's' then tmap_sample_id_to_timestamp junk tm v
                   else tmap_timestamp_to_sample_id junk tm v in
           (match r with
            | QVal x -> Buffer.add_string buf (" 0:" ^ hex_of_z x); run tl
